@@ -33,7 +33,7 @@ def strategy(draw):
     lo_f = draw(gen.floats(0.1, 1))
     f = [float(v) for v in (np.geomspace(lo_f, lo_f * draw(gen.floats(10, 200)), n) if draw(st.booleans())
                             else np.linspace(lo_f, lo_f + draw(gen.floats(5, 50)), n))]
-    nwin = draw(st.integers(3, 12))
+    nwin = draw(st.one_of(st.integers(3, 12), st.integers(3, 12), st.sampled_from([60, 130, 257])))      # rarely: many windows
     curves = []
     centre = draw(gen.floats(0.2, 0.8))
     for _ in range(nwin):
